@@ -24,6 +24,8 @@ CLAIMED.update({
    text='About a thousand C expressions and statements (every ordered pair of the 18 binary operators ungrouped and in both groupings; unary, dereference, subscript, ternary, comma, cast and literal forms incl. escaped quotes; assignments and increments; declarations; if/else chains with dangling else; loops; switch) are parsed and printed by the real occa printer; CBMC decides that original and printed text leave identical values in every output and variable for ALL values of the variables in the stated ranges. The printed text must compile wherever the original does and must print identically when parsed again.'),
  'C20': dict(level='translation_validation', engine=E2, technique=E2TECH, note=E2NOTE + ' Barrier kernels on launch-model backends run phase by phase (code between two barriers for all threads of a block, per-thread copies of the variables declared around the barriers); atomic builtins are the plain update under this sequential emulation.', design='5/C20',
    text='A corpus of OKL kernels covering nested and sibling @outer/@inner loops, scalar and pointer arguments of several types, @restrict, helper functions, local declarations and control flow, @exclusive, @shared with @barrier (1-D and 2-D), @atomic, @max_inner_dims, @nobarrier, @simd_length, @tile (1-D, 2-D) and @dim/@dimOrder is translated by the real occa for all seven backends; CBMC decides that every output array equals what the sequential reading of the kernel leaves, for ALL array contents and scalar arguments in the stated sizes/ranges, and that no access leaves the arrays (bounds checks on objects of exactly the declared size).'),
+ 'C21': dict(level='translation_validation', engine=E2, technique='bounded model checking (CBMC/SAT) of the instrumented OpenMP translation: two-iteration non-interference with a symbolic watched location, plus text equality with the Serial translation modulo pragmas', note=E2NOTE + ' Accesses are recognised lexically (subscripts/dereferences of non-const pointer parameters, kernel-local pointers, and variables declared outside the parallel loop); any access through a non-const pointer counts as a write. Determinism follows from race freedom + identical text (iterations commute); atomic/critical sections are assumed to hold commutative updates; the OpenMP runtime is trusted.', design='5/C21',
+   text='For every corpus kernel the OpenMP translation must equal the Serial translation except for `#pragma omp` lines, and CBMC decides, for ALL array contents/scalar arguments in the stated ranges and for a symbolic watched location, that no location is touched by two different iterations of a `#pragma omp parallel for` loop unless every such access is inside `omp atomic`/`omp critical`; variables declared inside the loop body (the lowered @exclusive/@shared storage) are private by construction and variables declared outside it are watched like arrays. A deliberately interfering kernel must be flagged on every run (self-test of the detector).'),
 })
 NA = {}
 def load_na():
